@@ -243,10 +243,18 @@ fn compile_pattern_chain(
             name
         };
 
-        let edge_alias = rel_el.variable.clone();
+        let is_var_len = rel_el.variable_length.is_some();
+        // An anonymous relationship that carries a property map still needs an alias,
+        // otherwise the map is never turned into a filter.
+        let edge_alias = rel_el.variable.clone().or_else(|| {
+            (!is_var_len && rel_el.properties.is_some()).then(|| {
+                let name = format!("_gen_{}", next_anon_id);
+                *next_anon_id += 1;
+                name
+            })
+        });
         let rel_types = rel_el.types.clone();
         let dst_labels = dst_node_el.labels.clone();
-        let is_var_len = rel_el.variable_length.is_some();
         let src_prebound =
             is_bound_before_local(known_bindings, &local_bound_aliases, &curr_src_alias);
 
